@@ -11,7 +11,7 @@ learned (once) or given, boots/time = those of the most recent accepted message,
 localised to that engine id, msgData decryptable under the privacy key localised the same way."""
 import json, asyncio, itertools, random
 from vlib import env, tlc, trace, scripts, apidrv, rawdrv, agent as ag, sesscheck
-from vlib.report import Check, confirm_by_replay
+from vlib.report import Check, confirm_by_replay, timing_event
 from vlib.env import ToolError, SEED
 
 ENGINES = {"A5": bytes([0x80, 0, 0x1f, 0x88, 4]), "A17": bytes([0x80, 0, 0x1f, 0x88, 0x80] + list(range(1, 13))),
@@ -32,9 +32,14 @@ def make_cfg(auth, priv, kt, engine, idx):
     klen = 16 if auth == "md5" else 20
     if auth == "none":
         return rawdrv.Cfg("v3", user="user%d" % idx, engine=engine)
+    shared = kt == "shared-password"          # every such user of the run has the SAME password bytes, whatever its digest / cipher
+    if shared:
+        kt = "password"
     akt, pkt = kt.split("+") if "+" in kt else (kt, kt)      # "password+master": auth key given as password, privacy key as master key
     akm = b"authkey-%d" % idx if akt == "password" else bytes((i * 3 + idx) % 256 for i in range(klen))
     pkm = b"privkey-%d" % idx if pkt == "password" else bytes((i * 5 + idx + 1) % 256 for i in range(klen))
+    if shared:
+        akm = pkm = b"one-password-for-all"
     return rawdrv.Cfg("v3", user="user%d" % idx, engine=engine, auth=auth, akt=akt, akm=akm, priv=priv, pkt=pkt, pkm=pkm if priv != "none" else b"")
 
 
@@ -219,8 +224,18 @@ def run(tier):
             a, b = await run_async(rec, cfg, given, calls, plan)
             out.append((a, b, dict(kind="async", auth=auth, priv=priv, kt=kt, given=given, engine=ename, calls=calls, plan=plan, idx=i)))
         return out
+    # sessions created back to back, in one thread, with the same password under alternating digests (both orders)
+    shared = []
+    for k, (auth, priv) in enumerate([("sha1", "none"), ("md5", "none"), ("md5", "aes"), ("sha1", "des"), ("md5", "none"), ("sha1", "none"), ("md5", "des")]):
+        calls = ["enter", "get", "get"]
+        shared.append((auth, priv, "shared-password", False, "A17", calls, [("reply", "A17", (i + 1) % len(CLOCKS)) for i in range(6)], 5000 + k))
     half = [s for k, s in enumerate(scen) if k % 2 == 0]
     other = [s for k, s in enumerate(scen) if k % 2 == 1]
+    runs += asyncio.run(all_async(shared))
+    for (auth, priv, kt, given, ename, calls, plan, i) in shared:
+        cfg = make_cfg(auth, priv, kt, ENGINES[ename], i)
+        a, b = run_sync(rec, cfg, given, calls, plan)
+        runs.append((a, b, dict(kind="sync", auth=auth, priv=priv, kt=kt, given=given, engine=ename, calls=calls, plan=plan, idx=i)))
     runs += asyncio.run(all_async(half if not thorough else scen))
     for (auth, priv, kt, given, ename, calls, plan, i) in (other if not thorough else scen):
         cfg = make_cfg(auth, priv, kt, ENGINES[ename], i)
@@ -245,7 +260,7 @@ def run(tier):
         sig = dict(client=info["kind"], auth=info["auth"], priv=info["priv"], kt=info["kt"], given=info["given"], ev=ev["ev"], op=ev.get("op"), got=ev.get("exc") or "ok")
         chk.violation(sig, "%s auth=%s priv=%s kt=%s engine %s (%s) calls=%s: %s #%d (%s) %s" % (info["kind"], info["auth"], info["priv"], info["kt"], info["engine"],
                       "given" if info["given"] else "discovered", info["calls"], ev["ev"], nth, ev.get("op"), ev.get("exc") or ""), dict(info=info, event_index=idxf - a),
-                      confirm=confirm_by_replay(replay, dict(info=info)))
+                      confirm=(confirm_by_replay(replay, dict(info=info)) if timing_event(ev) else None))
     chk.sample(dict(kind="scenario", info=runs[2][2]))
     return chk.finish()
 
